@@ -519,7 +519,25 @@ func slashProfile() *Profile {
 		return cfg
 	}
 	prefix := func(pick func(string, int) int) []Block {
-		if pick("scripted", 3) != 0 || len(delegs) == 0 {
+		which := pick("scripted", 4)
+		if which == 1 {
+			// several queries reported in ONE block (two tipped spot-price queries and the scheduled cycle-list query), so
+			// that several aggregates share the height of their determining reports; then one of those reports is disputed
+			// with the full fee: exactly the aggregate it determined must be flagged
+			sub := func(q, i int) Op {
+				return Op{K: OpSubmit, A: pick("sameHeightActor", 16), R: [3]int{q, 8 * (1 + pick("sameHeightVal", 4)), 1 + 2*i}}
+			}
+			cat := 1 + pick("category", 3)
+			return []Block{
+				{Gap: GapSpec{Kind: 2}, Ops: []Op{
+					{K: OpTip, A: 100 + pick("tipper", 4), R: [3]int{3, 0, 0}, Amt: Amount{Kind: AmtAbs, N: 1_000_000}},
+					{K: OpTip, A: 100 + pick("tipper2", 4), R: [3]int{4, 0, 0}, Amt: Amount{Kind: AmtAbs, N: 2_000_000}}}},
+				{Gap: GapSpec{Kind: 2}, Ops: []Op{sub(3, 0), sub(4, 1), {K: OpSubmit, A: pick("cycleActor", 16), R: [3]int{0, 1, 5}, S: "nodep"}, sub(4, 2), sub(3, 3)}},
+				{Gap: GapSpec{Kind: 2}}, {Gap: GapSpec{Kind: 2}}, {Gap: GapSpec{Kind: 2}}, {Gap: GapSpec{Kind: 2}},
+				{Gap: GapSpec{Kind: 3}, Ops: []Op{{K: OpPropose, A: pick("proposer", 3), R: [3]int{pick("report", 6), 0, 0}, V: cat, Amt: Amount{Kind: AmtOfNeeded, N: 1000}}}},
+			}
+		}
+		if which != 0 || len(delegs) == 0 {
 			return nil
 		}
 		d := delegs[pick("which", len(delegs))]
